@@ -188,6 +188,7 @@ type ATRun struct {
 	Toks     []string // script tokens for the model
 	Initial  string
 	crash    string
+	lateCommit string // set when a local transaction committed writes after its branch had been rolled back early
 	Logs     []*undo.BranchUndoLog // decoded undo log per registered branch (nil if none)
 }
 
